@@ -127,6 +127,20 @@ func c19Family(name string, r *rand.Rand, thorough bool) *c19Scenario {
 		} else if r.Intn(2) == 0 {
 			sc.Threads = append(sc.Threads, []c19Op{c19Lookup("app." + b0 + ":80")})
 		}
+	case "refused-claim-delete-reclaim":
+		// two clients claim one name at once; the second one then sends ordinary deletes
+		// for the (sequential, predictable) ids around the one its attempt consumed and
+		// claims again. Whoever won keeps the name; single owner.
+		sc.Threads = [][]c19Op{
+			{c19Create(101, "app", b0)},
+			{c19Create(102, "app", b0),
+				{K: "delete", C: 102, IDLit: "hdm_2"}, {K: "delete", C: 102, IDLit: "hdm_1"}, {K: "delete", C: 102, IDLit: "hdm_3"},
+				c19Create(102, "app", b0)},
+		}
+		if r.Intn(2) == 0 {
+			sc.Setup = []c19Op{c19Create(103, "api", b1)}
+			sc.Threads[1][1].IDLit, sc.Threads[1][2].IDLit, sc.Threads[1][3].IDLit = "hdm_3", "hdm_2", "hdm_4"
+		}
 	case "stale-read":
 		// lookup1 on node 0 is held inside its record read; the owner deactivates /
 		// re-targets / deletes the mapping through node 1 and gets the acknowledgement;
@@ -565,6 +579,22 @@ func (x *c19Exe) judgeNonOwnerDeletes(sc *c19Scenario, tr *c19Truth, results []c
 			x.run.Count("owner_deletes", 1)
 			continue
 		}
+		if r.Op.IDLit != "" && len(holders[r.ID]) > 0 {
+			// guessed id that belongs to somebody else's claim: that claim may still have
+			// been in flight (its create had not returned), in which case "not found →
+			// nil" is legitimate; only the EFFECT is judged (the owner keeps the name)
+			x.run.Count("guessed_deletes_of_foreign_ids", 1)
+			if !r.OK {
+				x.run.Count("nonowner_deletes_refused", 1)
+			}
+			continue
+		}
+		if len(holders[r.ID]) == 0 {
+			// an id nobody was ever handed (guessed / consumed by a refused claim): the
+			// reply carries no obligation, the EFFECT is judged (nothing may change)
+			x.run.Count("deletes_of_unowned_ids", 1)
+			continue
+		}
 		x.run.Count("nonowner_deletes", 1)
 		if r.Faulted {
 			// the result of a call hit by a storage fault carries no obligation; its
@@ -619,7 +649,7 @@ func TestVerifC19Schedules(t *testing.T) {
 	rnd := run.Rand("families")
 	thorough := run.Thorough()
 
-	families := []string{"same-name", "diff-names", "same-client-two-names", "create-delete-lookup", "double-delete-reclaim", "nonowner-delete", "delete-reclaim-chain", "update-vs-delete", "update-vs-delete-vs-claim", "sweep-vs-claims", "random"}
+	families := []string{"same-name", "diff-names", "same-client-two-names", "create-delete-lookup", "double-delete-reclaim", "nonowner-delete", "delete-reclaim-chain", "update-vs-delete", "update-vs-delete-vs-claim", "refused-claim-delete-reclaim", "sweep-vs-claims", "random"}
 	exploreRuns := run.Pick(12, 1500)
 	randomRuns := run.Pick(12, 700)
 	const maxSteps = 600
@@ -758,6 +788,7 @@ func TestVerifC19Schedules(t *testing.T) {
 		}
 	}
 	run.Floor("stale_read_windows", 8)
+	run.Floor("deletes_of_unowned_ids", 100)
 	run.Floor("strict_lookups", 100)
 	run.Floor("schedules", int64(run.Pick(400, 8000)))
 	run.Floor("claims_overlap_incr_setnx", 50)
@@ -976,6 +1007,40 @@ func TestVerifC19Histories(t *testing.T) {
 		}
 		w.Close()
 	}
+
+	// a refused claim must leave nothing behind that its author could later "delete":
+	// owner claims, another client is refused, deletes every id around the one its
+	// attempt consumed (own client id, ordinary delete), claims again — refused again
+	for _, kind := range c19Kinds {
+		for v := 0; v < 3 && !x.stop; v++ {
+			w := c19NewWorld(t, kind, rd, c19WorldOpts{})
+			sc := &c19Scenario{Family: "refused-claim-then-delete", Kind: kind}
+			ops := []c19Op{c19Create(101, "app", c19Bases[0])}
+			for i := 0; i < v; i++ {
+				ops = append(ops, c19Create(int64(110+i), fmt.Sprintf("pad%d", i), c19Bases[i%2]))
+			}
+			refusedNode := v % 2
+			ops = append(ops, c19Op{K: "create", C: 102, Sub: "app", Base: c19Bases[0], Node: refusedNode, Pin: true})
+			for id := 1; id <= v+4; id++ {
+				ops = append(ops, c19Op{K: "delete", C: 102, IDLit: fmt.Sprintf("hdm_%d", id), Node: refusedNode, Pin: true})
+			}
+			ops = append(ops, c19Op{K: "create", C: 102, Sub: "app", Base: c19Bases[0], Node: refusedNode, Pin: true})
+			sc.Setup = ops
+			sc.number()
+			var results []c19Res
+			for _, op := range sc.Setup {
+				results = append(results, c19Exec(w, op, results))
+			}
+			run.Eval(1)
+			run.Count("refused_claim_delete_cases", 1)
+			if r := results[1+v]; r.Ran && !r.OK {
+				run.Count("refused_claims_followed_by_deletes", 1)
+			}
+			x.judge(sc, w, results, nil)
+			w.Close()
+		}
+	}
+	run.Floor("refused_claims_followed_by_deletes", 12)
 
 	// time passes: a claim must keep its name for as long as the mapping is live, also
 	// after every cache TTL of the hybrid storage has elapsed. The hybrid stores are
